@@ -113,11 +113,9 @@ EDIT_OPS = {1: 'AddItemToArray', 2: 'AddItemToObject', 3: 'AddItemToObjectCS', 4
             17: 'ReplaceItemInObjectCaseSensitive', 18: 'queries', 19: 'setters', 20: 'AddKindToObject'}
 for op, name in EDIT_OPS.items():
     for K in (2, 3, 4):
-        if K == 4 and op == 18:
-            continue          # the query family 'queries' does not finish for 4 children within 10 min
         QM(('C06', 'C07', 'C08') + (('C20',) if K == 2 else ()) + (('C14',) if K == 2 and op in (2, 3, 16) else ()), 'edit.%s.K%d' % (name, K), 'harness/edit.c', defs=['-DOP=%d' % op, '-DK=%d' % K], unwind=K + 3,
            unwindset=ML(K + 4, 60) + ['cJSON_Delete:2', 'cJSON_Delete.0:3', 'vf_build_rec:3', 'vf_memcpy.0:66', 'vf_strcpy.0:8', 'strlen.0:6', 'strcmp.0:6', 'strcpy.0:6', 'memcmp.0:4', 'check_list.0:%d' % (K + 3)],
-           tiers=('quick', 'thorough') if K in (2, 3) else ('thorough',), cost=K * 5, functions=['cJSON_' + name if op < 18 else name, 'add_item_to_array', 'add_item_to_object', 'create_reference', 'get_array_item', 'get_object_item', 'cJSON_Delete', 'cJSON_strdup'])
+           tiers=('quick', 'thorough') if K in (2, 3) else ('thorough',), cost=K * 5, solver=('cadical' if op == 18 else None), functions=['cJSON_' + name if op < 18 else name, 'add_item_to_array', 'add_item_to_object', 'create_reference', 'get_array_item', 'get_object_item', 'cJSON_Delete', 'cJSON_strdup'])
 CRFN = ['cJSON_CreateNull', 'cJSON_CreateTrue', 'cJSON_CreateFalse', 'cJSON_CreateBool', 'cJSON_CreateNumber', 'cJSON_CreateString', 'cJSON_CreateRaw', 'cJSON_CreateArray', 'cJSON_CreateObject',
         'cJSON_CreateStringReference', 'cJSON_CreateObjectReference', 'cJSON_CreateArrayReference', 'cJSON_New_Item', 'cJSON_strdup', 'cJSON_Delete']
 QM(('C06', 'C07', 'C08', 'C20'), 'create.single', 'harness/create.c', defs=['-DCNT=1'], unwind=5, unwindset=ML(6, 70) + ['cJSON_Delete:1', 'cJSON_Delete.0:2', 'vf_memcpy.0:66', 'strlen.0:6', 'strcmp.0:6'], cost=5, functions=CRFN)
